@@ -59,6 +59,16 @@ def Table.declared (t : Table) (v : Nat) : Bool := t.vars.any (fun x => x.id == 
 def Table.wf (t : Table) : Bool :=
   t.entries.all (fun e => e.rbw.all t.declared && e.writes.all t.declared)
 
+/-- like `bad`, ignoring the variables in `ign` (reviewed benign memo caches, see `RespectsInv`) -/
+def EntrySummary.badIgn (W ign : List Nat) (e : EntrySummary) : List Nat :=
+  e.rbw.filter (fun v => W.contains v && !ign.contains v)
+
+/-- the ids of the variables whose name is listed in `l` -/
+def idsOf (names : Array String) (l : List String) : List Nat :=
+  (List.range names.size).filter fun i => match names[i]? with
+    | some s => l.contains s
+    | none => false
+
 /-- names of the violating variables (for messages and for the `⊆ Known` obligation) -/
 def Table.violatingNames (t : Table) (names : Array String) : List String :=
   (t.violations.filterMap fun p => names[p.2]?).eraseDups
@@ -83,6 +93,15 @@ def AgreeOff {V : Type} (W : List Nat) (g g' : GState V) : Prop := ∀ v, v ∉ 
 structure Respects {V R : Type} (f : GState V → GState V × R) (rbw writes : List Nat) : Prop where
   frame : ∀ g v, v ∉ writes → (f g).1 v = g v
   reads : ∀ g g', AgreeOn rbw g g' → (f g).2 = (f g').2
+
+/-- The general form: `Inv` is an invariant of the shared state that every entry preserves, and the variables in
+    `ign` are memo caches — under `Inv` (every cache entry holds the value the cached function would compute) the
+    result does not depend on them although the code looks them up before filling them. -/
+structure RespectsInv {V R : Type} (Inv : GState V → Prop) (ign : List Nat) (f : GState V → GState V × R)
+    (rbw writes : List Nat) : Prop where
+  frame : ∀ g v, v ∉ writes → (f g).1 v = g v
+  inv : ∀ g, Inv g → Inv (f g).1
+  reads : ∀ g g', Inv g → Inv g' → AgreeOn (rbw.filter (fun v => !ign.contains v)) g g' → (f g).2 = (f g').2
 
 /-- a call: which entry, with which argument (file content, options …) -/
 structure Call (A : Type) where
